@@ -310,6 +310,10 @@ class NodeBlock:
                     self.pos,
                 )
         except CklRuntimeError as e:
+            if e.pos is None and self.expressions:
+                # raised by a conversion or a rendering hook that does not
+                # know where it was used: the statement is where it happened
+                e.pos = getattr(expression, "pos", None)
             for err, expr in self.catchexprs:
                 if not err or e.value == err.evaluate(environment):
                     return expr.evaluate(environment)
